@@ -131,6 +131,7 @@ def linTerms (e : Expr) (s : Bool) : Option (List (Bool × Nat × Bool)) :=
     (match op with
      | .neg => linTerms a (!s)
      | _ => none)
+  | .const q => if q = 0 then some [] else none     -- Python's `sum()` starts from the int 0
   | _ => none
 
 /-- the signed leaves the property demands for junction `j`: `+D − Σ IN + Σ OUT (+ leak)` -/
@@ -628,6 +629,57 @@ def zooIncidence (links : List ZLink) (vars params : List String) (pdd : Bool) (
   match d, allSome (insOf links vars r.junction), allSome (outsOf links vars r.junction), leak with
   | some d, some ins, some outs, some leak => some (d, ins, outs, leak)
   | _, _, _, _ => none
+
+/-! #### what `store_results_in_network` stores (Gen/StoreC01.lean: symbolic execution of the real function) -/
+
+inductive NodeKind where
+  | junction | tank | reservoir
+  deriving Repr, DecidableEq, Inhabited
+
+/-- one node after `store_results_in_network` ran on symbolic model values: `_demand`, `_leak_demand` as expressions over the
+model's leaves (all leaves are `param i`, named by the table's `leafNames`) -/
+structure ZStored where
+  node : String
+  kind : NodeKind
+  leakStatus : Bool
+  isolated : Bool
+  demand : Expr
+  leakDemand : Expr
+  deriving Repr, Inhabited
+
+def pLeaf (names : List String) (n : String) : Option Expr := (leafIdx names n).map .param
+
+/-- signed leaves `+ flow[l]` (l ends in the node) `− flow[l]` (l starts in the node) over the NON-isolated links (an isolated link's
+stored flow is the constant 0), `− leak_rate[node]` iff `leak` -/
+def netInflowTerms (links : List ZLink) (iso : List String) (names : List String) (node : String) (leak : Bool) :
+    Option (List (Bool × Nat × Bool)) :=
+  let live := links.filter (fun l => !iso.contains l.name)
+  let ins := (live.filter (fun l => l.stop == node)).map (fun l => leafIdx names (flowName l.name))
+  let outs := (live.filter (fun l => l.start == node)).map (fun l => leafIdx names (flowName l.name))
+  let lk : List (Option Nat) := if leak then [leafIdx names ("leak_rate[" ++ node ++ "]")] else []
+  match allSome ins, allSome outs, allSome lk with
+  | some i, some o, some k => some (i.map (fun x => (true, x, false)) ++ o.map (fun x => (true, x, true)) ++ k.map (fun x => (true, x, true)))
+  | _, _, _ => none
+
+def permOpt (a b : Option (List (Bool × Nat × Bool))) : Bool :=
+  match a, b with
+  | some l, some e => l.isPerm e
+  | _, _ => false
+
+/-- the documented content of `store_results_in_network` for one node -/
+def storedOk (links : List ZLink) (iso : List String) (names : List String) (pdd : Bool) (r : ZStored) : Bool :=
+  let leakExpected : Option Expr :=
+    if r.kind = .reservoir || r.isolated || !r.leakStatus then some (.const 0) else pLeaf names ("leak_rate[" ++ r.node ++ "]")
+  (some r.leakDemand == leakExpected) &&
+  (match r.kind with
+   | .junction =>
+     if r.isolated then r.demand == .const 0
+     else some r.demand == pLeaf names ((if pdd then "demand[" else "expected_demand[") ++ r.node ++ "]")
+   | _ => permOpt (linTerms r.demand false) (netInflowTerms links iso names r.node (r.kind = .tank && r.leakStatus)))
+
+/-- stored link flow: the model's flow variable, 0 for an isolated link -/
+def flowStoredOk (iso : List String) (names : List String) (f : String × Expr) : Bool :=
+  if iso.contains f.1 then f.2 == .const 0 else some f.2 == pLeaf names (flowName f.1)
 
 /-- the generated row has exactly the signed leaves `+D − Σ INLET + Σ OUTLET (+ leak iff leak_status)` of the
 zoo's link table, in any order -/
